@@ -47,6 +47,8 @@ pub fn get_states(dfa: &OwnedDFA, root: StateID) -> impl Iterator<Item = StateID
     }
 
     let mut sorted = states.into_iter().collect::<Vec<_>>();
+    #[cfg(feature = "verif_hooks")]
+    crate::verif_hooks::permute("get_states", &mut sorted);
     sorted.sort_unstable();
     sorted.into_iter()
 }
